@@ -3,6 +3,7 @@ package sx
 // Go regular expressions -> SMT-LIB RegLan (byte semantics; see DESIGN.md).
 
 import (
+	"strconv"
 	"regexp"
 	"regexp/syntax"
 	"strings"
@@ -10,6 +11,8 @@ import (
 )
 
 var reCache sync.Map
+
+var loopRe = regexp.MustCompile(`re\.loop (\d+) `)
 
 type compiledRe struct {
 	goRe *regexp.Regexp
@@ -34,7 +37,12 @@ func compileRe(pattern string) *compiledRe {
 		c.err = err.Error()
 	} else {
 		c.build(re)
-		c.heavy = strings.Count(c.smt, "re.loop") > 0 || len(c.smt) > 400
+		c.heavy = len(c.smt) > 600
+		for _, m := range loopRe.FindAllStringSubmatch(c.smt, -1) {
+			if n, _ := strconv.Atoi(m[1]); n >= 16 {
+				c.heavy = true
+			}
+		}
 	}
 	reCache.Store(pattern, c)
 	return c
@@ -399,7 +407,12 @@ func (i *interpreter) undent(s value) value {
 				out = mkConcat(out, sg)
 				atStart = false
 			default:
-				unsup("Undent (ReplaceAllString) on an unstructured symbolic string")
+				// unstructured text: the result is an arbitrary string no longer than the input
+				i.ex.noteApprox("Undent of unstructured symbolic text is over-approximated by an arbitrary string")
+				w := p.freshVar("undany", SStr)
+				p.pc = append(p.pc, "(<= (str.len "+w.e+") (str.len "+sg.e+"))")
+				out = mkConcat(out, w)
+				atStart = false
 			}
 		}
 	}
